@@ -27,7 +27,7 @@ Definition unimpl_error (x : kind) : errc := if is_host x then EUnimplObj else E
 Definition as_value (s : side) (k : metakey) (x : kind) (a : list event * fres) : action :=
   (fst a, match snd a with
           | FUnimpl => OErr (unimpl_error x)
-          | FErr => OErr EUser
+          | FErr ek => OErr (EUser ek)
           | _ => OFn s k
           end).
 
@@ -35,7 +35,7 @@ Definition as_value (s : side) (k : metakey) (x : kind) (a : list event * fres) 
 Definition as_effect (x : kind) (a : list event * fres) : action :=
   (fst a, match snd a with
           | FUnimpl => OErr (unimpl_error x)
-          | FErr => OErr EUser
+          | FErr ek => OErr (EUser ek)
           | _ => OLhs
           end).
 
@@ -59,7 +59,7 @@ Definition spec_rhs (o : oracle) (a : arith) (r : kind) : action :=
     let res := ask o R (k_rhs a) r WR [WL] in
     (fst res, match snd res with
               | FUnimpl => OErr (if is_host r then EBinaryOp else EThrownUnimpl)
-              | FErr => OErr EUser
+              | FErr ek => OErr (EUser ek)
               | _ => OFn R (k_rhs a)
               end)
   else ([], OErr EBinaryOp).
@@ -73,7 +73,7 @@ Definition spec_arith (o : oracle) (a : arith) (l r : kind) : action :=
         let res := ask o L (k_op a) l WL [WR] in
         match snd res with
         | FUnimpl => let fb := spec_rhs o a r in (fst res ++ fst fb, snd fb)
-        | FErr => (fst res, OErr EUser)
+        | FErr ek => (fst res, OErr (EUser ek))
         | _ => (fst res, OFn L (k_op a))
         end
       else if implements (k_rhs a) r || is_host r then spec_rhs o a r
@@ -103,7 +103,7 @@ Definition ask_bool (o : oracle) (k : metakey) (l : kind) : list event * bres :=
    match snd res with
    | FBool b => BOk b
    | FUnimpl => BFail (unimpl_error l)
-   | FErr => BFail EUser
+   | FErr ek => BFail (EUser ek)
    | _ => if is_host l then BOk true else BFail EType
    end).
 
@@ -209,7 +209,7 @@ Definition as_string (nested : bool) (x : kind) (k : metakey) (a : list event * 
   (fst a, match snd a with
           | FVal => OFn L k
           | FUnimpl => OErr (if nested then EString else unimpl_error x)
-          | FErr => OErr (if nested then EString else EUser)
+          | FErr ek => OErr (if nested then EString else (EUser ek))
           | _ => OErr (if nested then EString else EType)
           end).
 
@@ -220,8 +220,8 @@ Definition as_stream (wrap_errors : bool) (x : kind) (k : metakey) (a : list eve
   | FNull => ([e], OIter 0 (Some (L, k)))
   | FUnimpl => if is_host x then ([e], OIter 0 (Some (L, k)))
                else ([e], OErr (if wrap_errors then EString else EThrownUnimpl))
-  | FErr => if is_host x then ([e], OIter 0 (Some (L, k)))
-            else ([e], OErr (if wrap_errors then EString else EUser))
+  | FErr ek => if is_host x then ([e], OIter 0 (Some (L, k)))
+            else ([e], OErr (if wrap_errors then EString else EUser ek))
   | _ => ([e; e; e], OIter 2 (Some (L, k)))
   end.
 
@@ -231,7 +231,7 @@ Definition as_iterable (x : kind) (a : list event * fres) : action :=
   (fst a, match snd a with
           | FVal | FSeq => OIter 2 (Some (L, k_iterator))
           | FUnimpl => OErr (unimpl_error x)
-          | FErr => OErr EUser
+          | FErr ek => OErr (EUser ek)
           | _ => if is_host x then OIter 2 (Some (L, k_iterator)) else OErr EType
           end).
 
@@ -364,4 +364,42 @@ Definition spec_chain (key : string) (m : mobj) : chain_res :=
   match first_hit key (levels m) 0 with
   | Some (d, w) => CFound d w
   | None => chain_end m
+  end.
+
+(* ------------------------------------------------------------------ errors of user functions *)
+
+(* "uses its result": when a user function fails, the operation fails with THAT error, nothing
+   else runs afterwards, and the error goes to the caller of the operation (the innermost
+   enclosing catch).  Host methods returning Option (size, iterator_next[_back]) cannot fail.
+   Two places re-raise the failure as a plain runtime error string: a for loop's @next, and
+   display() running inside another display (objects; @display standing in for @debug). *)
+Definition err_of (o : oracle) (e : event) : option errkind :=
+  match o (ev_owner e) (ev_key e) with FErr ek => Some ek | _ => None end.
+
+Definition infallible_host_site (l : kind) (e : event) : bool :=
+  is_host l && (metakey_eqb (ev_key e) k_next || metakey_eqb (ev_key e) k_next_back || metakey_eqb (ev_key e) k_size).
+
+Definition rewrap_site (p : op) (l : kind) (e : event) : bool :=
+  match p with
+  | OpUnary UFor => metakey_eqb (ev_key e) k_next
+  | OpUnary UDbg => metakey_eqb (ev_key e) k_display
+  | OpUnary UDisp => is_host l && metakey_eqb (ev_key e) k_display
+  | _ => false
+  end.
+
+Definition errc_is (x : outcome) (ek : errkind) : bool :=
+  match x, ek with OErr (EUser Thrown), Thrown | OErr (EUser Runtime), Runtime => true | _, _ => false end.
+Definition is_estring (x : outcome) : bool := match x with OErr EString => true | _ => false end.
+
+Fixpoint errors_delivered (o : oracle) (p : op) (l : kind) (evs : list event) (out : outcome) : bool :=
+  match evs with
+  | [] => true
+  | e :: rest =>
+      match err_of o e with
+      | Some ek =>
+          infallible_host_site l e
+          || (match rest with [] => true | _ => false end
+              && (errc_is out ek || (rewrap_site p l e && is_estring out)))
+      | None => true
+      end && errors_delivered o p l rest out
   end.
